@@ -199,6 +199,8 @@ fn normalise_tokens(tok: &mut Value) {
 }
 
 pub struct Want {
+    /// keep only globs that report is_exhaustive() == Always (the others are dropped from the output)
+    pub only_exhaustive: bool,
     pub dfa: bool,
     pub walk: bool,
     pub neg: bool,
@@ -245,6 +247,9 @@ pub fn observe_glob(id: u64, e: &str, sigma: &[u32], want: &Want, max_states: us
             rec["qpanic"] = json!(site);
             return rec;
         },
+    }
+    if want.only_exhaustive && rec["q"]["exh"] != "always" {
+        return json!({"drop": true});
     }
     if want.tok {
         let mut tok: Value = serde_json::from_str(&glob.verif_tokens()).unwrap_or(json!({"k": "bad"}));
@@ -413,7 +418,7 @@ pub fn parse_sigma(arg: &str) -> Vec<u32> {
 
 pub fn run(args: &[String]) {
     let mut sigma: Vec<u32> = vec![97, 98, 47];
-    let mut want = Want { dfa: false, walk: false, neg: false, part: false, tok: false };
+    let mut want = Want { only_exhaustive: false, dfa: false, walk: false, neg: false, part: false, tok: false };
     let mut max_states = crate::dfa::MAX_STATES;
     let mut threads = 8usize;
     let mut i = 0;
@@ -426,6 +431,7 @@ pub fn run(args: &[String]) {
             "--want" => {
                 for w in args[i + 1].split(',') {
                     match w {
+                        "always" => want.only_exhaustive = true,
                         "dfa" => want.dfa = true,
                         "walk" => want.walk = true,
                         "neg" => want.neg = true,
@@ -489,6 +495,9 @@ pub fn run(args: &[String]) {
                                     _ => observe_glob(id, &from_cps(&case["e"]), sigma, want, max_states),
                                 };
                                 let mut rec = rec;
+                                if rec.get("drop").is_some() || (want.only_exhaustive && rec["outcome"] != "ok") {
+                                    return String::new();
+                                }
                                 // carry through any generator annotations
                                 if let Some(obj) = case.as_object() {
                                     for (k, v) in obj {
@@ -512,7 +521,9 @@ pub fn run(args: &[String]) {
     let mut out = std::io::BufWriter::new(out.lock());
     for part in results {
         for line in part {
-            writeln!(out, "{}", line).unwrap();
+            if !line.is_empty() {
+                writeln!(out, "{}", line).unwrap();
+            }
         }
     }
 }
